@@ -197,6 +197,16 @@ pub(crate) enum Expr {
 }
 
 impl Expr {
+    /// The variable that an identifier, index or field path is rooted at, if any.
+    fn root_ident(&self) -> Option<&super::Ident> {
+        match self {
+            Expr::Value(Value::Ident(ident)) => Some(ident),
+            Expr::Index { lhs_raw, .. } => lhs_raw.root_ident(),
+            Expr::DotLookup { lhs, .. } => lhs.root_ident(),
+            _ => None,
+        }
+    }
+
     pub(crate) fn validate(
         &self,
         flags: &TypecheckFlags<impl Deref<Target = ClassType> + Debug>,
@@ -223,6 +233,17 @@ impl Expr {
         match self {
             Expr::Value(val) => val.for_type(flags),
             Expr::BinOp { lhs, op, rhs } => {
+                if op.is_op_assign() || matches!(op, Op::Unwrap) {
+                    if let Some(root) = lhs.root_ident() {
+                        if root.is_const() {
+                            bail!(
+                                "cannot reassign using {op} to {}, which is const",
+                                root.name()
+                            )
+                        }
+                    }
+                }
+
                 let lhs = if op.is_op_assign() {
                     match lhs.as_ref() {
                         Expr::Value(Value::Ident(ident)) => {
